@@ -204,6 +204,9 @@ func ruleResetCancelsHandler(c *Ctx, rule string) {
 		if typeKey(cl.Call.Value.Type()) != "context.CancelFunc" {
 			return
 		}
+		if p.callbackFieldDeep(cl.Call.Value) != "goat.streamHandler.cancel" {
+			return // releasing a context that was never handed to a handler (pairing: C14.3)
+		}
 		n++
 		fs := p.Facts(i)
 		isReset := false
